@@ -178,6 +178,13 @@ func (in *Interp) choose(n int, what string) int {
 		in.taken = append(in.taken, d)
 		return d.N
 	}
+	if profileOn {
+		fnName := ""
+		if in.curFn != nil {
+			fnName = in.curFn.String()
+		}
+		profileCount("choose:" + what + "@" + fnName)
+	}
 	for k := 1; k < n; k++ {
 		alt := append(append([]Decision{}, in.taken...), Decision{Kind: 'c', N: k})
 		in.eng2.push(alt)
